@@ -12,7 +12,7 @@ pub mod c01;
 pub mod c02;
 #[cfg(any(feature = "c03", not(kani)))]
 pub mod c03;
-#[cfg(any(feature = "c04", not(kani)))]
+#[cfg(any(feature = "c04", feature = "c13", not(kani)))]
 pub mod c04;
 #[cfg(any(feature = "c05", not(kani)))]
 pub mod c05;
